@@ -167,6 +167,30 @@ impl vstd::std_specs::cmp::PartialEqSpecImpl for Cursor {
                 (Cursor::BeginAligned(b), Cursor::BeginAligned(e)) => r == (if b <= e { Some((e - b) as usize) } else { None }),
                 (Cursor::EndAligned(b), Cursor::EndAligned(e)) => r == (if b <= e && e <= 0 { Some((e - b) as usize) } else { None }),
                 _ => r is None }''')]),
+        # shifting an offset shifts both cursors by the same distance, keeps each cursor's alignment, and is refused
+        # exactly when one of the two cursors would leave the range of its kind (checked against Cursor::shift's contract)
+        Fn('shift', props=P4, ret='r',
+           ensures=[('value', '''r is Ok ==> match (self.begin, (r->Ok_0).begin) {
+                        (Cursor::BeginAligned(c), Cursor::BeginAligned(n)) => n == c + distance,
+                        (Cursor::EndAligned(c), Cursor::EndAligned(n)) => n == c + distance,
+                        _ => false } && match (self.end, (r->Ok_0).end) {
+                        (Cursor::BeginAligned(c), Cursor::BeginAligned(n)) => n == c + distance,
+                        (Cursor::EndAligned(c), Cursor::EndAligned(n)) => n == c + distance,
+                        _ => false }'''),
+                    ('ok_iff', '''wf_cursor(self.begin) && wf_cursor(self.end) ==> (r is Ok <==> (match self.begin {
+                        Cursor::BeginAligned(c) => 0 <= c + distance <= usize::MAX,
+                        Cursor::EndAligned(c) => isize::MIN <= c + distance <= 0 }) && (match self.end {
+                        Cursor::BeginAligned(c) => 0 <= c + distance <= usize::MAX,
+                        Cursor::EndAligned(c) => isize::MIN <= c + distance <= 0 }))'''),
+                    ('len_kept', '''r is Ok ==> (self.begin is BeginAligned <==> self.end is BeginAligned) ==>
+                        match ((r->Ok_0).begin, (r->Ok_0).end, self.begin, self.end) {
+                            (Cursor::BeginAligned(nb), Cursor::BeginAligned(ne), Cursor::BeginAligned(b), Cursor::BeginAligned(e)) => ne - nb == e - b,
+                            (Cursor::EndAligned(nb), Cursor::EndAligned(ne), Cursor::EndAligned(b), Cursor::EndAligned(e)) => ne - nb == e - b,
+                            _ => false }''')]),
+        Fn('is_simple', props=P4, ret='r',
+           ensures=[('iff', 'r <==> (self.begin is BeginAligned && self.end is BeginAligned)')]),
+        Fn('is_simple_or_whole', props=P4, ret='r',
+           ensures=[('iff', 'r <==> ((self.begin is BeginAligned && self.end is BeginAligned) || (self.begin == Cursor::BeginAligned(0) && self.end == Cursor::EndAligned(0)))')]),
     ])
     u.impl('src/selector.rs', 'impl From<&Offset> for OffsetMode', [
         Fn('from', props=P4, ret='r', ensures=[('mode', 'r == mode_of(*offset)')]),
